@@ -15,6 +15,32 @@ def strip_comments(code):
     return re.sub(r"//[^\n]*", "", code)
 
 
+def _inline_methods(code, src, recv):
+    """Replace statement-level calls `recv.name(args)` in `code` by the body of `func (r *Processor) name(params) {...}` found in `src`,
+    when that body is straight-line (no control flow, no return value, no go/defer): receiver and parameter names are substituted by
+    the actual arguments. One level; a call that cannot be inlined is left as it is. Moving a few statements of a select arm into an
+    unexported method changes nothing the arm does."""
+    def repl(m):
+        indent, name, args = m.group(1), m.group(2), [a.strip() for a in m.group(3).split(",") if a.strip()]
+        fm = re.search(r"func \((\w+) \*Processor\) %s\(([^)]*)\)\s*\{\n(.*?)\n\}\n" % re.escape(name), src, re.S)
+        if not fm:
+            return m.group(0)
+        r, params, body = fm.group(1), fm.group(2), fm.group(3)
+        if re.search(r"\b(if|for|switch|select|return|go|defer|goto)\b", body):
+            return m.group(0)
+        names = []
+        for part in [x.strip() for x in params.split(",") if x.strip()]:
+            names.append(part.split()[0])
+        if len(names) != len(args):
+            return m.group(0)
+        out = body
+        sub = dict(zip(names, args))
+        sub[r] = recv
+        out = re.sub(r"\b(%s)\b" % "|".join(re.escape(k) for k in sub), lambda x: sub[x.group(1)], out)
+        return "\n".join(indent + ln.strip() for ln in out.split("\n"))
+    return re.sub(r"(?m)^([ \t]*)%s\.(\w+)\(([^()]*)\)[ \t]*$" % re.escape(recv), repl, code)
+
+
 def gen(ctx):
     # both files with every integer-constant expression folded (tools/gofold), comments removed: named constants, inline
     # literals and `30 * time.Second` style products all read alike
@@ -27,6 +53,13 @@ def gen(ctx):
     for am in re.finditer(r"case\s+(?:(\w+)\s*:=\s*)?(?:(%s\.gs)\s*=\s*)?<-\s*([\w\.\(\)]+):\s*\n(.*?)(?=\n\t\tcase |\n\t\t\}|\Z)" % p, body, re.S):
         var, assign, chan, code = am.group(1), am.group(2), am.group(3), am.group(4)
         chan = re.sub(r"^%s\." % p, "p.", chan)
+        if chan == "p.setC":
+            # the guardian-set arm: `case p.gs = <-p.setC:` or `case gs := <-p.setC:` followed by `p.gs = gs`, either of them possibly
+            # with its statements moved into a straight-line unexported method
+            code = _inline_methods(code, src, p)
+            if var and re.search(r"(?m)^\s*%s\.gs = %s\s*$" % (p, var), code):
+                assign = p + ".gs"
+                code = re.sub(r"%s\.gst\.Set\(%s\)" % (p, var), "%s.gst.Set(%s.gs)" % (p, p), code)
         call = re.search(r"%s\.(handle\w+)\(%s(?:,\s*(\w+))?\)" % (p, cx), code)
         if chan == cx + ".Done()":
             arms.append(("ctx.Done()", "return"))
